@@ -267,4 +267,44 @@ def tasks():
             Task("C44.convert_glob", t_convert_glob, [(PR, "convert_glob")])]
 
 
-REPLAY = {}
+def replay_collect_ops(model):
+    """run the real collect_ops on the counter-model's text and evaluate the three postconditions natively"""
+    from pkgcore.util.parserestrict import collect_ops
+    text = model.get("text", "")
+    try:
+        r = collect_ops(text)
+    except Exception as e:
+        return True, f"collect_ops({text!r}) raised {type(e).__name__}: {e}"
+    i = 0
+    while i < len(text) and text[i] in OPS:
+        i += 1
+    want = (text[:i], text[i:])
+    return r != want, f"collect_ops({text!r}) returns {r!r}; the longest operator prefix and the rest are {want!r}"
+
+
+def replay_convert_glob(model):
+    """run the real convert_glob on the counter-model's token; compare with the dispatch the contract states, read off the real objects"""
+    from pkgcore.util.parserestrict import convert_glob, valid_globbing, ParseError
+    from pkgcore.restrictions import values
+    token = model.get("token", "")
+    try:
+        r = convert_glob(token)
+    except ParseError:
+        bad = token in ("*", "") or "*" not in token or bool(valid_globbing(token))
+        return bad, f"convert_glob({token!r}) raised ParseError; valid_globbing says {bool(valid_globbing(token))}"
+    except Exception as e:
+        return True, f"convert_glob({token!r}) raised {type(e).__name__}: {e}"
+    if token in ("*", ""):
+        return r is not None, f"convert_glob({token!r}) returns {r!r}, no restriction is expected"
+    if "*" not in token:
+        ok = isinstance(r, values.StrExactMatch) and r.exact == token and not r.negate and r.case_sensitive
+        return not ok, f"convert_glob({token!r}) returns {r!r}, an exact, case-sensitive, non-negated match on the token is expected"
+    if not valid_globbing(token):
+        return True, f"convert_glob({token!r}) returns {r!r} for a glob that valid_globbing refuses"
+    want = "^" + re.escape(token).replace("\\*", ".*") + "$"
+    pat = getattr(r, "regex", None)
+    ok = isinstance(r, values.StrRegex) and pat == want and r.ismatch is True and not r.negate and r.flags == 0
+    return not ok, f"convert_glob({token!r}) returns {r!r} (pattern {pat!r}); expected the anchored pattern {want!r} applied with match=True"
+
+
+REPLAY = {"C44.collect_ops.": replay_collect_ops, "C44.convert_glob.": replay_convert_glob}
